@@ -64,6 +64,7 @@ func init() {
 			{"run-container", "paragraph reader descends into run containers", ruleRunContainer},
 			{"rel-append-only", "relationship lists of an opened document are only appended to", ruleRelAppendOnly},
 			{"skip-balanced", "the element skipper balances start and end tags (depth counter or recursion)", ruleSkipBalanced},
+			{"counter-numeric", "the restored image counter is a numeric maximum, not a lexicographic one", ruleCounterNumeric},
 		},
 		Assumptions: commonAssumptions,
 	}
@@ -140,6 +141,7 @@ func init() {
 			{"fresh-dep/relid", "image relationship ids depend on existing ids", ruleFreshRelIDImage},
 			{"config-pure", "image API never writes into the caller's ImageConfig/ImageSize (mutation summaries)", ruleConfigPure},
 			{"alloc-scans-all", "the relationship id allocator's scanning loop has no early exit", ruleAllocScansAll},
+			{"counter-numeric", "the restored image counter is a numeric maximum, not a lexicographic one", ruleCounterNumeric},
 		},
 		Assumptions: commonAssumptions,
 	}
@@ -251,6 +253,7 @@ func init() {
 			{"dispatch-exh", "node-kind classification vs type switches", ruleDispatchExh},
 			{"style-id", "emitted style ids ⊆ registry", func(r *Run) { ruleStyleID(r, pkgMd) }},
 			{"cross-call-state", "no renderer field carries values from one block to the next except the frozen, reasoned ones", ruleCrossCallState("WordRenderer", "(*WordRenderer).Render")},
+			{"softbreak", "every Text node reaches the soft-break test (must-pass-through in the Text case)", ruleSoftBreak},
 		},
 		Assumptions: append([]string{"goldmark v1.7.8 node set; classification table in the checker (one reason per kind)"}, commonAssumptions...),
 	}
